@@ -75,6 +75,44 @@ func (prop) Generate(rng *sim.Rng, tier string, runIndex int) driver.Scenario {
 	if sc.Hint < 0 {
 		n = rng.Range(1, 12)
 	}
+	if rng.Intn(10) == 0 && sc.Hint >= 0 {
+		// chain churn under the grouped hasher: fill one collision group, drain
+		// most of it, move to the next; a range loop or two run alongside
+		sc.Degen = -1
+		groups := rng.Range(3, 12)
+		itLive := false
+		for g := 0; g < groups; g++ {
+			base := g * 24
+			k := rng.Range(12, 24)
+			for i := 0; i < k; i++ {
+				sc.Ops = append(sc.Ops, Op{K: "set", Key: base + i})
+				if rng.Intn(9) == 0 {
+					if !itLive {
+						sc.Ops = append(sc.Ops, Op{K: "istart", It: 0})
+						itLive = true
+					} else {
+						sc.Ops = append(sc.Ops, Op{K: "inext", It: 0})
+					}
+				}
+			}
+			for i := 0; i < k; i++ {
+				if rng.Intn(8) != 0 {
+					sc.Ops = append(sc.Ops, Op{K: "del", Key: base + i})
+				}
+				if itLive && rng.Intn(6) == 0 {
+					sc.Ops = append(sc.Ops, Op{K: "inext", It: 0})
+				}
+			}
+			if rng.Intn(4) == 0 {
+				sc.Ops = append(sc.Ops, Op{K: "get", Key: base + rng.Intn(24)}, Op{K: "len"})
+			}
+		}
+		if itLive {
+			sc.Ops = append(sc.Ops, Op{K: "idrain", It: 0})
+		}
+		sc.Ops = append(sc.Ops, Op{K: "istart", It: 1}, Op{K: "idrain", It: 1})
+		return sc
+	}
 	// phases bias the mix: fill, churn, drain
 	wSet, wDel, wGet, wIter, wClear := 6, 2, 3, 2, 0
 	if rng.Intn(3) == 0 {
@@ -473,6 +511,7 @@ type iterState struct {
 	held     map[string]map[int]bool // values the entry has held since the iterator began
 	yields   int
 	cleared  bool  // clear(m) ran since the loop began
+	clearAt  int   // index of the last clear(m) since the loop began
 	startB   uint8 // log2 of the bucket count when the loop began
 }
 
@@ -502,19 +541,6 @@ func (prop) Run(scx driver.Scenario, ch *sim.Choices, keep bool) *driver.Result 
 		}
 	}
 	kt, et := sc.KeyT, sc.ElemT
-	mt := d.mapType(keyTypes[kt], elemTypes[et])
-	if sc.Degen > 0 {
-		// buggify: a legal hasher with very few distinct values
-		cp := *mt
-		real := maprt.HasherFor(mt.Key)
-		m := uintptr(sc.Degen)
-		cp.Hasher = func(p unsafe.Pointer, seed uintptr) uintptr { return (real(p, seed) % m) * 0x0101010101010101 }
-		mt = &cp
-	}
-	var h *maprt.Hmap
-	if sc.Hint >= 0 {
-		h = maprt.MakeMap(mt, sc.Hint)
-	}
 	// signature -> class for every key of the pool used by the scenario
 	pool := map[string]int{}
 	for _, op := range sc.Ops {
@@ -524,7 +550,35 @@ func (prop) Run(scx driver.Scenario, ch *sim.Choices, keep bool) *driver.Result 
 			}
 		}
 	}
-	model := map[int]*entry{} // class -> entry
+	mt := d.mapType(keyTypes[kt], elemTypes[et])
+	if sc.Degen > 0 {
+		// buggify: a legal hasher with very few distinct values
+		cp := *mt
+		real := maprt.HasherFor(mt.Key)
+		m := uintptr(sc.Degen)
+		cp.Hasher = func(p unsafe.Pointer, seed uintptr) uintptr { return (real(p, seed) % m) * 0x0101010101010101 }
+		mt = &cp
+	} else if sc.Degen < 0 {
+		// buggify: a legal hasher under which runs of 24 consecutive pool keys
+		// collide, so a workload can fill and drain one bucket chain after the
+		// other (overflow buckets pile up while the load stays low: same-size grow)
+		cp := *mt
+		real := maprt.HasherFor(mt.Key)
+		cp.Hasher = func(p unsafe.Pointer, seed uintptr) uintptr {
+			c, _ := decodeKey(kt, p, pool)
+			if c < 0 {
+				return real(p, seed) // NaN and unknown keys: the real hasher (may panic for unhashable keys)
+			}
+			return uintptr(c/24%61) * 0x0101010101010101
+		}
+		mt = &cp
+	}
+	var h *maprt.Hmap
+	if sc.Hint >= 0 {
+		h = maprt.MakeMap(mt, sc.Hint)
+	}
+	insertedAt := map[string]int{} // entry id -> index of the op that created it
+	model := map[int]*entry{}      // class -> entry
 	var nans []int            // values of the NaN-keyed entries (each insert is a new entry)
 	iters := map[int]*iterState{}
 	nextVal := 0
@@ -670,6 +724,14 @@ func (prop) Run(scx driver.Scenario, ch *sim.Choices, keep bool) *driver.Result 
 		}
 		if it.yielded[eid] {
 			fail("range-entry-twice", "op %d: iterator %d yielded entry %s twice", i, id, sig)
+			var tags []string
+			if it.cleared {
+				tags = append(tags, "cleared-during-loop")
+				if at, ok := insertedAt[eid]; ok && at > it.clearAt {
+					tags = append(tags, "entry-inserted-after-the-clear")
+				}
+			}
+			res.Items = []driver.Item{{Tags: tags, Detail: detail}}
 			return
 		}
 		it.yielded[eid] = true
@@ -710,6 +772,7 @@ func (prop) Run(scx driver.Scenario, ch *sim.Choices, keep bool) *driver.Result 
 					e.val = v
 				} else {
 					model[class] = &entry{op.Key, v}
+					insertedAt[entryID(class, 0)] = i
 				}
 				noteValue(entryID(class, 0), v)
 			}
@@ -763,6 +826,7 @@ func (prop) Run(scx driver.Scenario, ch *sim.Choices, keep bool) *driver.Result 
 			for _, it := range iters {
 				if !it.done {
 					it.cleared = true
+					it.clearAt = i
 				}
 			}
 			for c := range model {
